@@ -27,7 +27,7 @@ from .c01 import balance_check
 
 ID = 'C09'
 LEVEL = 'exploration'
-CASES = {'quick': 2400, 'thorough': 40000}
+CASES = {'quick': 4000, 'thorough': 120000}
 CASE_TIMEOUT = 40
 TECHNIQUE = ('property-based testing (Hypothesis): (a) generated networks with closures and open/close schedules '
              'simulated with WNTRSimulator, every reported row judged against an own breadth-first reachability over the '
@@ -136,6 +136,8 @@ def sim_tags(spec):
         tags.append('parallel_triple')
     if any(any(k != 'pipe' for _n, _a, _b, k, _l in v) for v in multi):
         tags.append('parallel_with_pump_or_valve')
+    if min([j['elev'] for j in spec['junctions']] + [rs['head'] for rs in spec['reservoirs']]) < 0:
+        tags.append('negative_datum')
     ctl = [c for c in spec.get('controls', []) if c['kind'] == 'time']
     if ctl:
         tags.append('time_controls')
@@ -148,12 +150,14 @@ def sim_tags(spec):
 
 
 def reduced_spec(spec, cut):
-    """the rest of the network: cut-off junctions and every link touching them removed, no controls"""
+    """the rest of the network: cut-off junctions and every link touching them removed, controls of removed links
+    dropped"""
     sp = copy.deepcopy(spec)
     sp['junctions'] = [j for j in sp['junctions'] if j['name'] not in cut]
     for k in ('pipes', 'pumps', 'valves'):
         sp[k] = [l for l in sp[k] if l['a'] not in cut and l['b'] not in cut]
-    sp['controls'] = []
+    left = set(n for n, _a, _b, _k, _l in _links(sp))
+    sp['controls'] = [c for c in sp.get('controls', []) if c['link'] in left]
     return sp
 
 
@@ -244,6 +248,12 @@ def judge_rows(spec, run, tags):
         if cut:
             stats['iso_rows'] += 1
             tags.add('row:cut_off_junction')
+            us = user_status_at(spec, t)
+            ucut_now = S.reachable_from_sources(spec, set(n for n, v in us.items() if v == 'CLOSED'))
+            if any(n in ucut_now for n in cut):
+                tags.add('row:cut_off_by_internal_closure')   # check valve / pump / valve / tank-limit logic closed it
+            if len(cut) == len(spec['junctions']):
+                tags.add('row:every_junction_cut_off')
             for v in multi:
                 if all(m in closed for m in v):
                     tags.add('row:parallel_pair_all_closed')
@@ -305,57 +315,120 @@ def check_sim(case):
     if any(ucut.values()):
         tags.add('user_closures_cut_something')
     hw = spec['opts']['hw_approx']
-    run = S.run_wntr(wn, hw_approx=hw)
-    if run.exception is not None:
-        e = run.exception
-        if not any(ucut.values()):
-            return inconclusive('run_sim raised %s, nothing cut off by user closures' % type(e).__name__, tags)
-        twin = S.run_wntr(_build(open_twin(spec)), hw_approx=hw)
-        if twin.exception is not None and type(twin.exception) is type(e):
-            return inconclusive('run_sim raised %s, also with all links open' % type(e).__name__, tags)
-        return fail(exc_bucket(e, 'raises_with_cut_off_part'),
-                    'run_sim raised %r while junctions %s are cut off by closed links; the same network with all links '
-                    'open and no controls does not raise' % (e, {t: sorted(v) for t, v in ucut.items() if v}), tags)
-    if len(run.times) == 0:
-        verdict = _judge_failed_first_step(spec, run, ucut, hw, tags)
-        return verdict
-    bad, stats = judge_rows(spec, run, tags)
-    if bad:
-        return fail(bad[0], bad[1], tags)
-    bal = balance_check(spec, run, tags)
-    if bal:
-        return fail(bal[0], bal[1] + ' [user-level cut sets %s]' % {t: sorted(v) for t, v in ucut.items() if v}, tags)
-    if not run.ok:
-        return _judge_failed_first_step(spec, run, ucut, hw, tags)
-    nontrivial = stats['iso_junction_rows'] > 0 and stats['reach_rows'] > 0
+    pause = case.get('pause')
+    dur = spec['opts']['duration']
+    parts = [dur]
+    if pause and 0 < pause < dur:
+        parts = [int(pause), dur]
+        tags.add('paused_and_continued')
+    stats = {}
+    for pi, until in enumerate(parts):
+        # a continuation uses a new simulator object on the same model (sim_time, statuses, flags are model state)
+        wn.options.time.duration = until
+        run = S.run_wntr(wn, hw_approx=hw)
+        where = '' if len(parts) == 1 else ' [part %d of a run paused at t=%s]' % (pi + 1, parts[0])
+        if run.exception is not None:
+            e = run.exception
+            if not any(ucut.values()):
+                return inconclusive('run_sim raised %s, nothing cut off by user closures' % type(e).__name__, tags)
+            twin = S.run_wntr(_build(open_twin(spec)), hw_approx=hw)
+            if twin.exception is not None and type(twin.exception) is type(e):
+                return inconclusive('run_sim raised %s, also with all links open' % type(e).__name__, tags)
+            return fail(exc_bucket(e, 'raises_with_cut_off_part'),
+                        'run_sim raised %r while junctions %s are cut off by closed links; the same network with all '
+                        'links open and no controls does not raise%s'
+                        % (e, {t: sorted(v) for t, v in ucut.items() if v}, where), tags)
+        if len(run.times) == 0:
+            if pi == 0 or not run.ok:
+                return _judge_failed_first_step(spec, run, ucut, hw, tags, len(parts) > 1)
+            continue
+        bad, st_ = judge_rows(spec, run, tags)
+        for k, v in st_.items():
+            stats[k] = stats.get(k, 0) + v
+        if bad:
+            return fail(bad[0], bad[1] + where, tags)
+        bal = balance_check(spec, run, tags)
+        if bal:
+            return fail(bal[0], bal[1] + ' [user-level cut sets %s]%s'
+                        % ({t: sorted(v) for t, v in ucut.items() if v}, where), tags)
+        if not run.ok:
+            return _judge_failed_first_step(spec, run, ucut, hw, tags, len(parts) > 1)
+    nontrivial = stats.get('iso_junction_rows', 0) > 0 and stats.get('reach_rows', 0) > 0
     return passed(nontrivial, tags)
 
 
-def _judge_failed_first_step(spec, run, ucut, hw, tags):
-    """a run that stopped: is it only because a part is cut off?"""
-    tf = failure_time(run)
+def _closing_kinds(spec, wn, cut):
+    """kinds of the links that separate the cut-off part and were not closed by the user-level statuses"""
+    kinds = set()
+    tanks = set(t['name'] for t in spec['tanks'])
+    for name, a, b, kind, l in _links(spec):
+        if (a in cut) == (b in cut):
+            continue
+        if kind == 'pipe':
+            k = 'cv' if l.get('cv') else ('tank_link' if (a in tanks or b in tanks) else 'pipe')
+        elif kind == 'valve':
+            k = l['type'].lower()
+        else:
+            k = 'pump'
+        kinds.add(k)
+    return sorted(kinds)
+
+
+def _judge_failed_first_step(spec, run, ucut, hw, tags, paused=False):
+    """A run that stopped early: is it only because a part is cut off?
+
+    The run is repeated with every step reported.  C = the junctions that were cut off in the last solved trial
+    (the model's isolation flags) or are cut off by the link statuses the model is left with (own BFS); in a
+    status flip-flop these are the two alternating states.  If C was cut off in every reported row before the
+    failure, the rest of the network (C and its links removed) has had the same history and poses the same
+    equations, so it must be solved whenever the rest alone is: the rest alone has to converge for the whole
+    duration, take the same steps up to the failure and solve the failing instant."""
     tags.add('not_converged')
-    msg = '; '.join(w for w in run.warnings if 'converge' in w or 'trials' in w)[:200]
-    if tf is None:
+    if failure_time(run) is None:
         return inconclusive('not converged (no failure time)', tags)
-    static = not any(c['kind'] == 'time' and c['at'] <= tf for c in spec.get('controls', []))
-    cut = ucut.get(0, set())
-    if tf == 0 and static and cut and len(cut) < len(spec['junctions']):
-        red = reduced_spec(spec, cut)
-        red['opts'] = dict(red['opts'], duration=0)
-        rr = S.run_wntr(_build(red), hw_approx=hw)
-        if rr.exception is None and rr.ok:
-            return fail('rest_not_solved_first_step',
-                        'first step did not converge (%s) with junctions %s cut off by initially closed links; the same '
-                        'network without these junctions and their links converges' % (msg, sorted(cut)), tags)
-        return inconclusive('not converged at t=0, the rest alone does not converge either', tags)
-    cut_now = set()
-    for t in sorted(ucut):
-        if t <= tf:
-            cut_now = ucut[t]
-    if cut_now:
-        return inconclusive('not converged while a part is cut off (reported prefix satisfied the oracle)', tags)
-    return inconclusive('not converged, nothing cut off (reported prefix satisfied the oracle)', tags)
+    if paused:
+        return inconclusive('not converged in a paused run', tags)
+    full = copy.deepcopy(spec)
+    full['opts']['rep'] = 'ALL'
+    wn = _build(full)
+    rf = S.run_wntr(wn, hw_approx=hw)
+    tf = failure_time(rf) if rf.exception is None else None
+    if rf.exception is not None or rf.ok or tf is None:
+        return inconclusive('not converged (not reproduced with every step reported)', tags)
+    msg = '; '.join(w for w in rf.warnings if 'converge' in w or 'trials' in w)[:200]
+    kind = 'max_trials' if 'trials' in msg else 'solver'
+    jn = [j['name'] for j in spec['junctions']]
+    try:
+        closed = set(n for n, _a, _b, _k, _l in _links(spec) if int(wn.get_link(n).status) == 0)
+        flagged = set(n for n in jn if getattr(wn.get_node(n), '_is_isolated', False))
+    except Exception as e:
+        return inconclusive('not converged (model state not readable: %s)' % type(e).__name__, tags)
+    reach = S.reachable_from_sources(spec, closed)
+    cut = set(n for n in jn if n not in reach) | flagged
+    if not cut:
+        return inconclusive('not converged, nothing cut off (reported prefix satisfied the oracle)', tags)
+    tags.add('not_converged_with_cut_off_part')
+    if len(cut) == len(jn):
+        return inconclusive('not converged, every junction cut off', tags)
+    stt = rf.link['status'] if len(rf.times) else {}
+    for k in range(len(rf.times)):
+        r_k = S.reachable_from_sources(spec, set(n for n in stt if stt[n][k] == 0))
+        if any(n in r_k for n in cut):
+            return inconclusive('not converged, cut-off part changes before the failure (reported prefix satisfied '
+                                'the oracle)', tags)
+    red = reduced_spec(full, cut)
+    rr = S.run_wntr(_build(red), hw_approx=hw)
+    if rr.exception is not None or not rr.ok:
+        return inconclusive('not converged, the rest alone does not converge either', tags)
+    before = [t for t in rr.times if t < tf]
+    if list(rf.times) != before or tf not in list(rr.times):
+        return inconclusive('not converged, the rest alone takes other steps', tags)
+    kinds = _closing_kinds(spec, wn, cut)
+    return fail('rest_not_solved/%s/%s' % (kind, '+'.join(kinds) or 'user_closed'),
+                'the run stopped at t=%s (%s) while junctions %s are cut off from every source (cut off in every '
+                'reported row before; separating links %s; statuses left in the model: closed %s); the same network '
+                'without these junctions and their links takes the same steps %s, solves t=%s and converges for '
+                'the whole duration' % (tf, msg, sorted(cut), kinds, sorted(closed), before, tf), tags)
 
 
 # ----------------------------------------------------------------------------------------- sim generator
@@ -373,6 +446,16 @@ def sim_case(draw, tier='quick'):
     for j in spec['junctions']:
         if abs(j['elev']) < 0.5:
             j['elev'] = 0.5
+    # keep ordinary non-convergence rare: most power pumps become head pumps, most PSVs become TCVs
+    qtot = sum(d[0] for j in spec['junctions'] for d in j['demands'])
+    for p in spec['pumps']:
+        if p['type'] == 'POWER' and draw(st.integers(0, 7)) != 0:
+            cname = 'HC%d' % (len(spec['curves']) + 1)
+            spec['curves'][cname] = {'type': 'HEAD', 'pts': [[_r(max(qtot * 1.5, 0.003), 5), 70.0]]}
+            p.update(type='HEAD', power=None, curve=cname)
+    for v in spec['valves']:
+        if v['type'] == 'PSV' and draw(st.integers(0, 2)) != 0:
+            v.update(type='TCV', setting=draw(st.sampled_from([0.0, 1.0, 5.0])))
     jn = [j['name'] for j in spec['junctions']]
     used = set(n for n, _a, _b, _k, _l in _links(spec))
     cnt = [0]
@@ -398,9 +481,28 @@ def sim_case(draw, tier='quick'):
             spec['junctions'].append({'name': nm, 'elev': _r(draw(st.floats(0.5, 20)), 2),
                                       'demands': [[draw(st.sampled_from([0.001, 0.0005, 0.002, 0.0])), None, None]]})
             a, b = (at, nm) if draw(st.booleans()) else (nm, at)
-            spec['pipes'].append(pipe(a, b))
+            z = draw(st.integers(0, 11))
+            if z == 0:      # a small booster, possibly pointing out of the dead end
+                cname = 'HC%d' % (len(spec['curves']) + 1)
+                spec['curves'][cname] = {'type': 'HEAD', 'pts': [[0.004, draw(st.sampled_from([10.0, 30.0]))]]}
+                spec['pumps'].append({'name': newname('PU'), 'a': a, 'b': b, 'type': 'HEAD', 'power': None,
+                                      'curve': cname, 'status': 'OPEN'})
+            else:           # a pipe, every fourth with a check valve in either direction
+                spec['pipes'].append(pipe(a, b, cv=z in (1, 2, 3)))
             jn.append(nm)
             at = nm
+    # datum: the whole network lowered below the reference level (elevations and heads negative)
+    shift = draw(st.sampled_from([0.0, 0.0, 0.0, -45.0, -130.0]))
+    if shift:
+        for j in spec['junctions']:
+            j['elev'] = _r(j['elev'] + shift, 2)
+            if abs(j['elev']) < 0.5:
+                j['elev'] = -0.5
+        for t in spec['tanks']:
+            t['elev'] = _r(t['elev'] + shift, 2)
+        for rs in spec['reservoirs']:
+            rs['head'] = _r(rs['head'] + shift, 2)
+            rs['pat'] = None
     # parallel links
     for _ in range(draw(st.integers(0, 3))):
         ls = _links(spec)
@@ -480,7 +582,10 @@ def sim_case(draw, tier='quick'):
         toggle(ls[draw(st.integers(0, len(ls) - 1))][0], draw(st.integers(1, 3)))
     spec['controls'] = [{'kind': 'time', 'at': t, 'link': ln, 'attr': 'status', 'value': v}
                         for (ln, t), v in sorted(sched.items(), key=lambda kv: (kv[0][1], kv[0][0]))]
-    return {'mode': 'sim', 'net': spec}
+    case = {'mode': 'sim', 'net': spec}
+    if nsteps >= 2 and draw(st.integers(0, 4)) == 0:
+        case['pause'] = hyd * draw(st.integers(1, nsteps - 1))
+    return case
 
 
 # ===================================================================================================== graph mode
@@ -836,12 +941,37 @@ def hand_built():
     s['pipes'] = [_pipe('L2', 'J1', 'J2'), _pipe('L3', 'J1', 'J2', 'CLOSED')]
     s['controls'] = [_ctl(3600, 'PU1', 'CLOSED'), _ctl(2 * 3600 + 1800, 'PU1', 'OPEN')]
     out.append(s)
+    # a PRV and a check valve inside the part that is cut off and reconnected
+    for pdd in (False, True):
+        s = _base(_opts(5 * 3600, 3600, 'ALL', pdd))
+        s['reservoirs'] = [{'name': 'R1', 'head': 80.0, 'pat': None}]
+        s['junctions'] = [_junction('J1', 10.0), _junction('J2', 8.0), _junction('J3', 6.0), _junction('J4', 4.0),
+                          _junction('J5', 3.0)]
+        s['pipes'] = [_pipe('L1', 'R1', 'J1'), _pipe('L2', 'J1', 'J2'), _pipe('L4', 'J3', 'J4'),
+                      _pipe('L5', 'J4', 'J5', cv=True)]
+        s['valves'] = [{'name': 'V3', 'a': 'J2', 'b': 'J3', 'type': 'PRV', 'diam': 0.3, 'minor': 0.0, 'setting': 25.0,
+                        'status': 'ACTIVE'}]
+        s['controls'] = [_ctl(3600, 'L2', 'CLOSED'), _ctl(3 * 3600 + 60, 'L2', 'OPEN')]
+        out.append(s)
+    # a small tank is the only source left after the feed closes: it drains, its outlet is closed at the minimum level
+    s = _base(_opts(6 * 3600, 1800))
+    s['reservoirs'] = [{'name': 'R1', 'head': 45.0, 'pat': None}]
+    s['tanks'] = [{'name': 'T1', 'elev': 30.0, 'init': 1.0, 'min': 0.5, 'max': 6.0, 'diam': 3.0, 'min_vol': 0.0, 'vol_curve': None}]
+    s['junctions'] = [_junction('J1', 10.0, 0.003), _junction('J2', 8.0, 0.003)]
+    s['pipes'] = [_pipe('L1', 'R1', 'J1'), _pipe('L2', 'J1', 'J2'), _pipe('L3', 'J2', 'T1')]
+    s['controls'] = [_ctl(1800, 'L1', 'CLOSED'), _ctl(5 * 3600, 'L1', 'OPEN')]
+    out.append(s)
+    # the same paused in the middle of the cut-off period and continued with a new simulator
+    out.append(('pause', 3 * 3600, copy.deepcopy(s)))
     return out
 
 
 def enumerate_cases(tier):
     for s in hand_built():
-        yield {'mode': 'sim', 'net': s}
+        if isinstance(s, tuple):
+            yield {'mode': 'sim', 'net': s[2], 'pause': s[1]}
+        else:
+            yield {'mode': 'sim', 'net': s}
     # all multigraphs on source 0 + junctions 1, 2 with 0..2 links per pair and every open/closed pattern
     opts = [[], ['OPEN'], ['CLOSED'], ['OPEN', 'OPEN'], ['OPEN', 'CLOSED'], ['CLOSED', 'OPEN'], ['CLOSED', 'CLOSED']]
     pairs = [(0, 1), (0, 2), (1, 2)]
@@ -863,7 +993,7 @@ def summarize(case):
     if case.get('mode') == 'graph':
         return case
     spec = case['net']
-    return {'mode': 'sim', 'opts': spec['opts'], 'n_junctions': len(spec['junctions']),
+    return {'mode': 'sim', 'pause': case.get('pause'), 'opts': spec['opts'], 'n_junctions': len(spec['junctions']),
             'sources': [t['name'] for t in spec['tanks'] + spec['reservoirs']],
             'links': [[l[0], l[1], l[2], l[3], l[4]['status']] for l in S.links_of(spec)],
             'controls': [[c['at'], c['link'], c['value']] for c in spec['controls']]}
